@@ -52,6 +52,9 @@ MagExps == {0, -13, 9}          \* 1e10 m^-3 per unit: 2e-3 m^-3 ... 2e19 m^-3
 \* species temperatures pairwise distinct and distinct from T_e (3), so a coefficient evaluated at another species' temperature shows
 TempOf(s) == 3 + Idx(s)
 Priors == {"none", "provider", "plasma", "point", "mutated"}
+\* bremsstrahlung only: the model was evaluated, then given another (equivalent) wavelength integrator through its setter
+\* beam line models: the model was evaluated for another line and then given this one through its setter
+PriorsOf(m) == IF m = "brems" THEN Priors \cup {"integrator"} ELSE IF m \in {"bcx", "bes"} THEN Priors \cup {"reline"} ELSE Priors     \* (the passive line models take their line at construction only)
 Absent == -9
 Present == {s \in Names : dens[s] # Absent}
 N(s) == dens[s]
@@ -62,7 +65,7 @@ Init == /\ model \in Models
         /\ ne \in NeVals /\ te \in TeVals
         /\ nb \in (IF model \in {"bcx", "bes"} THEN {0, 4} ELSE {0})
         /\ flow \in (IF model \in {"bcx", "bes"} THEN BOOLEAN ELSE {FALSE})
-        /\ prior \in (IF ne = 2 /\ te = 3 THEN Priors ELSE {"none"})      \* re-binding explored at the nominal electron state
+        /\ prior \in (IF ne = 2 /\ te = 3 THEN PriorsOf(model) ELSE {"none"})      \* re-binding explored at the nominal electron state
         /\ mag \in (IF ne = 2 /\ te = 3 /\ prior = "none" /\ ~flow THEN MagExps ELSE {0})
         /\ (model \in {"bcx", "bes"} => /\ ne = 2 /\ te = 3 /\ \A s \in Names : dens[s] >= 0 \/ dens[s] = Absent
                                         /\ \E s \in Names : dens[s] > 0 /\ Charge(s) > 0)
